@@ -85,6 +85,63 @@ func NewModel() *Model {
 	}
 }
 
+// Clone returns a deep copy of the model (used to evaluate crash images against the
+// history as it stood at the crash point).
+func (m *Model) Clone() *Model {
+	c := NewModel()
+	for k, v := range m.KV {
+		c.KV[k] = append([]byte{}, v...)
+	}
+	for name, mi := range m.Idx {
+		ni := &MIndex{Cfg: mi.Cfg, Recs: map[string]*Rec{}, Dim: mi.Dim}
+		if mi.Cfg.Maint != nil {
+			mc := *mi.Cfg.Maint
+			ni.Cfg.Maint = &mc
+		}
+		if mi.Cfg.Mem != nil {
+			mc := *mi.Cfg.Mem
+			ni.Cfg.Mem = &mc
+		}
+		ni.Cfg.AutoLinks = append(ni.Cfg.AutoLinks[:0:0], mi.Cfg.AutoLinks...)
+		for id, r := range mi.Recs {
+			nr := &Rec{Vec: CopyVec(r.Vec), Meta: NormMeta(r.Meta), Pend: map[string][2]float64{}}
+			for k, p := range r.Pend {
+				nr.Pend[k] = p
+			}
+			ni.Recs[id] = nr
+		}
+		c.Idx[name] = ni
+	}
+	for k, vs := range m.Edges {
+		for _, v := range vs {
+			cp := *v
+			c.Edges[k] = append(c.Edges[k], &cp)
+		}
+	}
+	for _, pair := range []struct{ from, to map[string]bool }{{m.SeenIdx, c.SeenIdx}, {m.SeenIDs, c.SeenIDs}, {m.SeenKeys, c.SeenKeys}, {m.SeenNode, c.SeenNode}, {m.SeenRel, c.SeenRel}} {
+		for k := range pair.from {
+			pair.to[k] = true
+		}
+	}
+	return c
+}
+
+// DeleteWithCascade applies a node deletion to the model: the record disappears and every
+// active edge into or out of the node is soft-unlinked with a stamp in [lo,hi].
+func (m *Model) DeleteWithCascade(index, id string, lo, hi int64) {
+	if mi := m.Idx[index]; mi != nil {
+		delete(mi.Recs, id)
+	}
+	gid := GraphID(index, id)
+	for k, vs := range m.Edges {
+		for _, v := range vs {
+			if v.Deleted == 0 && v.DHi == 0 && (k.Src == gid || v.Target == gid) {
+				v.DLo, v.DHi = lo, hi
+			}
+		}
+	}
+}
+
 func GraphID(index, node string) string {
 	if index == "" {
 		return node
